@@ -52,6 +52,12 @@ const e2eIDHeader = "X-E2e-Id"
 
 // ---------------------------------------------------------------- helpers
 
+// e2eNotReplayed tells that a single case of ANOTHER part is being replayed, so this
+// part has nothing to do.
+func e2eNotReplayed(r *kit.Run) bool {
+	return os.Getenv("VERIF_ONLY") != "" && !r.Replaying()
+}
+
 func e2eGzip(b []byte) []byte {
 	var buf bytes.Buffer
 	zw := gzip.NewWriter(&buf)
